@@ -1,53 +1,31 @@
-(* Prepared model switches for the two repairs proposed in fixes/ and NOT yet committed in /repo.
-   This file is not imported by Properties/C09.v or Tie/C09.v (the checked model follows the code
-   that exists); it is compiled on its own:  coqc -Q . V Corrupt/Switch.v
-
-   (1) fixes/C09-read-tx-id-check.diff: ReadTx / ReadTxHeader / ReadTxEntry / readTxOffsetAt (and,
-       through readTx, ExportTx, TxReader and the indexer) compare the id decoded from the record
-       with the id that was asked for. Model: read_tx_for below replaces read_tx_at (the case type
-       CTx of Tie/C09.v gets the requested id as an extra argument, the harness passes t.id).
-   (2) fixes/C09-export-eof-beyond-end.diff: flip  fix_export_eof  in TxRecord.v. *)
+(* What the two repairs give (commits 93c30ce and 6fe0104):
+   (1) a transaction read returns a transaction that carries the id that was asked for;
+   (2) ExportTx flags "values truncated" only for a value reference without a value log. *)
 From V Require Import Corrupt.TxRecord.
 From Coq Require Import ZifyN ZifyNat ZifyBool.
 
 Section Hash.
 Variable H : bytes -> bytes.
 
-(* ---- (1) the id check ---- *)
-Definition read_tx_for (chk : bool) (nslots maxKeyLen : N) (txlog : bytes) (off size id : N) : res tx :=
-  do t <- read_tx_at H chk nslots maxKeyLen txlog off size;
-  if h_id (t_hdr t) =? id then Ok t else Err ECorruptedTxData.
-
-(* what the repair gives: whatever bytes are stored where the commit log places transaction id,
-   a successful read (with or without integrity check) returns a transaction that carries that id;
-   in particular the record of another transaction copied there is refused *)
-Theorem read_tx_for_id chk ns mk txlog off size id t :
-  read_tx_for chk ns mk txlog off size id = Ok t -> h_id (t_hdr t) = id.
+(* whatever bytes are stored where the commit log places transaction id, a successful read (with or
+   without integrity check) returns a transaction that carries that id: the record of another
+   transaction copied there is refused *)
+Theorem read_tx_at_id chk ns mk txlog off size id t :
+  read_tx_at H chk ns mk txlog off size id = Ok t -> h_id (t_hdr t) = id.
 Proof.
-  unfold read_tx_for. destruct (read_tx_at H chk ns mk txlog off size) as [t0| |]; cbn [bind]; try discriminate.
+  unfold read_tx_at.
+  destruct (read_tx H chk ns mk (drop off txlog)) as [[[t0 a] r]| |]; cbn [bind]; try discriminate.
   destruct (N.eqb_spec (h_id (t_hdr t0)) id); [|discriminate]. intros E. congruence.
 Qed.
 
-Theorem read_tx_for_no_panic chk ns mk txlog off size id :
-  read_tx_at H chk ns mk txlog off size <> Panic -> read_tx_for chk ns mk txlog off size id <> Panic.
-Proof.
-  unfold read_tx_for. destruct (read_tx_at H chk ns mk txlog off size) as [t0| |]; cbn [bind]; try congruence.
-  intros _. destruct (h_id (t_hdr t0) =? id); discriminate.
-Qed.
-
-(* ---- (2) after the switch, ExportTx flags "truncated" only for a value reference without a
-   value log (vLogID 0 outside embedded mode: the form in which a transaction replicated without
-   its values is stored); every other unreadable value is an error ---- *)
-Hypothesis switched : fix_export_eof = true.
-
 Lemma read_at_not_eof log off n : read_at log off n <> Err EEOF.
-Proof.
-  unfold read_at. rewrite switched. destruct (_ <=? _); discriminate.
-Qed.
+Proof. unfold read_at. destruct (_ <=? _); discriminate. Qed.
 
 Lemma value_check_not_eof chk vlen hval b n : value_check H chk vlen hval b n <> Err EEOF.
 Proof. unfold value_check. destruct (_ && _); discriminate. Qed.
 
+(* a value reference without a value log: vLogID 0 outside embedded mode, the form in which a
+   transaction replicated without its values was stored *)
 Definition no_vlog (mode : vmode) (off : N) : Prop :=
   (match mode with VEmbedded => False | _ => True end) /\ vlog_id off = 0.
 
@@ -67,14 +45,14 @@ Proof.
     unfold raw_read in R.
     destruct (fetch_vlog mode txlog vlogs (vlog_id off)) as [log|e|] eqn:F; cbn [bind] in R; [| |discriminate R].
     + destruct (off_negative off) eqn:Ng; [|exact (read_at_not_eof _ _ _ R)].
-      (* a negative offset has vLogID >= 128: no store has such a value log *)
+      (* a negative offset has vLogID >= 128: no store has such a value log (MaxParallelIO = 127) *)
       unfold off_negative in Ng. apply N.leb_le in Ng.
       assert (Hid : 128 <= vlog_id off).
       { unfold vlog_id.
-        assert (X : (off / 2 ^ 56) mod 256 = (off mod 2 ^ 64) / 2 ^ 56).
-        { change (2 ^ 64) with (2 ^ 56 * 256). rewrite N.mod_mul_r by lia.
-          rewrite N.mul_comm, N.div_add by lia. rewrite N.div_small by (apply N.mod_lt; lia). lia. }
-        rewrite X. apply N.div_le_lower_bound; [lia|]. change (2 ^ 56 * 128) with (2 ^ 63). exact Ng. }
+        let a := eval vm_compute in (2 ^ 63) in change (2 ^ 63) with a in Ng.
+        let a := eval vm_compute in (2 ^ 64) in change (2 ^ 64) with a in Ng.
+        let a := eval vm_compute in (2 ^ 56) in change (2 ^ 56) with a.
+        lia. }
       assert (Hb : vlog_id off < 256) by (unfold vlog_id; apply N.mod_lt; lia).
       unfold fetch_vlog in F. destruct mode.
       * destruct (N.ltb_spec 0 (vlog_id off)); [discriminate | lia].
@@ -92,6 +70,8 @@ Proof.
       * destruct (nth_error vlogs _); discriminate.
 Qed.
 
+(* ExportTx: an export flagged "values truncated" contains an entry whose value reference names no
+   value log; every other unreadable value (altered vOff / vLen, altered value bytes) is an error *)
 Theorem export_truncated_only_without_vlog chk mvl mode txlog vlogs :
   (length vlogs <= 127)%nat ->
   forall es c i trunc t l,
@@ -105,7 +85,7 @@ Proof.
     destruct rv as [v|code|]; [| |discriminate].
     + destruct trunc; [discriminate|].
       destruct (export_values H chk mvl mode txlog vlogs c1 es (i + 1) false) as [rr c2] eqn:X.
-      cbn [fst] in E. destruct rr as [[t0 l0]| |]; try discriminate.
+      cbn [fst] in E. destruct rr as [[t0 l0]| |]; [|discriminate E|discriminate E].
       assert (t0 = t) by congruence. subst t0.
       destruct (IH c1 (i + 1) false t l0) as [F|[e' [I N0]]]; [rewrite X; reflexivity | exact T | discriminate |].
       right. exists e'. split; [right; exact I | exact N0].
